@@ -9,6 +9,8 @@ package trzsz
 // one length field kills the child; the parent attributes it to the marked case).
 
 import (
+	"bytes"
+	"encoding/base64"
 	"encoding/json"
 	"fmt"
 	"os"
@@ -46,6 +48,12 @@ func c12Bases(seed int64, thorough bool) []*e2eCase {
 	res[len(res)-1].Opts.Bufsize = 10 << 20
 	res[len(res)-1].Opts.Compress = 2
 	res[len(res)-1].Nodes[0].Kind = 1
+	// a directory sent as one uncompressed base64 archive stream, towards either role: the entry
+	// headers inside the data are mutated too
+	mk(false, false, 4, true, false, false, []int64{3000, 10}, nil)
+	res[len(res)-1].Opts.Compress = 2
+	mk(true, false, 4, true, false, true, []int64{2000, 700}, nil)
+	res[len(res)-1].Opts.Compress = 2
 	if thorough {
 		mk(true, false, 2, false, false, true, []int64{9000}, nil)
 		mk(false, true, 3, false, true, true, []int64{6000}, []e2eNode{{Rel: e2eName(0, 0), Size: 7000, Kind: 0}})
@@ -88,6 +96,40 @@ func c12Mutations(m e2eLayoutMsg, raw string, binary bool) []e2eMut {
 		add("half", raw[:len(raw)/2])
 		add("garbage", "QUJDREVGR0hJSktMTU5PUFFSU1RVVldYWVo=")
 		add("keepalive", "=")
+		// an archive stream (directory sent as one stream, uncompressed): the entry headers embedded in
+		// the data are fields of the peer too
+		if dec, err := base64.StdEncoding.DecodeString(raw); err == nil {
+			if i, e, j := c12ArchiveHeader(dec); j != nil {
+				put := func(label string, hdr string) {
+					nd := append(append(append([]byte(nil), dec[:i]...), []byte(hdr)...), dec[i+e:]...)
+					add("arch:"+label, base64.StdEncoding.EncodeToString(nd))
+				}
+				with := func(k string, nv any) string {
+					j2 := map[string]any{}
+					for kk, vv := range j {
+						j2[kk] = vv
+					}
+					j2[k] = nv
+					b, _ := json.Marshal(j2)
+					return encodeString(string(b))
+				}
+				for _, k := range []string{"size", "perm", "path_id"} {
+					for _, nv := range []any{-1, 0, float64(1 << 62), -float64(1 << 62), "x", nil} {
+						put(fmt.Sprintf("%s=%v", k, nv), with(k, nv))
+					}
+				}
+				for _, pn := range []any{[]any{}, []any{""}, "str", nil, []any{1}} {
+					put(fmt.Sprintf("path_name=%v", pn), with("path_name", pn))
+				}
+				put("is_dir=flip", with("is_dir", !c12Bool(j, "is_dir")))
+				b, _ := json.Marshal(j)
+				put("truncjson", encodeString(string(b[:len(b)/2])))
+				put("nothdr", encodeString("[1,2,3]"))
+				put("badb64", "%%%%")
+				put("notzlib", "QUJDRA==")
+				put("emptyhdr", "")
+			}
+		}
 	case isNum == nil: // NUM SIZE SUCC(int)
 		for _, v := range c12Ints {
 			add("int="+v, v)
@@ -198,8 +240,8 @@ func c12Adversary(d *vCtx) error {
 		var jobs []job
 		for bi := range bases {
 			for mi, m := range layouts[bi] {
-				if m.Typ == "DATA" && mi%3 != 0 && !thorough {
-					continue // every third DATA message is enough in the quick tier
+				if m.Typ == "DATA" && mi%3 != 0 && !thorough && !c12HasArchiveHeader(m.Raw) {
+					continue // every third DATA message is enough in the quick tier (chunks with an archive entry header always)
 				}
 				for ui, mu := range c12Mutations(m, m.Raw, bases[bi].Opts.Binary) {
 					if m.G == 0 && !thorough && ui%4 != bi%4 {
@@ -242,3 +284,38 @@ func c12Adversary(d *vCtx) error {
 	})
 }
 
+
+func c12Bool(m map[string]any, k string) bool { b, _ := m[k].(bool); return b }
+
+func c12HasArchiveHeader(raw string) bool {
+	dec, err := base64.StdEncoding.DecodeString(raw)
+	if err != nil {
+		return false
+	}
+	_, _, j := c12ArchiveHeader(dec)
+	return j != nil
+}
+
+// c12ArchiveHeader finds the first archive entry header (a line holding an encoded JSON document
+// with a path_id) in a piece of an archive stream: offset, length (without the newline), fields.
+func c12ArchiveHeader(dec []byte) (int, int, map[string]any) {
+	off := 0
+	for off < len(dec) {
+		e := bytes.IndexByte(dec[off:], '\n')
+		if e < 0 {
+			break
+		}
+		if e > 8 && e < 4096 {
+			if b, err := decodeString(string(dec[off : off+e])); err == nil && len(b) > 0 && b[0] == '{' {
+				var j map[string]any
+				if json.Unmarshal(b, &j) == nil {
+					if _, ok := j["path_id"]; ok {
+						return off, e, j
+					}
+				}
+			}
+		}
+		off += e + 1
+	}
+	return 0, 0, nil
+}
